@@ -177,7 +177,16 @@ def translate():
     except Exception:
         rep['algebra'] = {'error': out6[-500:]}
         rep['untranslatable'].append({'name': 'algebra programs', 'group': 'Algebra', 'why': out6[-500:]})
-    return rep, out + out2 + out3 + out4 + out5 + out6
+    # the branches of linear::at (Gen_Linear.v over LinLang.v)
+    rc7, out7 = sh([sys.executable, os.path.join(VERIF, 'tools', 'cxx_linear.py'), REPO, os.path.join(COQ, 'gen', 'Gen_Linear.v')], timeout=300)
+    try:
+        rep['linear'] = json.loads(out7.strip().split('\n')[-1])
+        for u in rep['linear']['untranslatable']:
+            rep['untranslatable'].append({'name': u['name'], 'group': 'Linear', 'why': u['why']})
+    except Exception:
+        rep['linear'] = {'error': out7[-500:]}
+        rep['untranslatable'].append({'name': 'linear::at', 'group': 'Linear', 'why': out7[-500:]})
+    return rep, out + out2 + out3 + out4 + out5 + out6 + out7
 
 
 def coq_makefile():
